@@ -441,8 +441,24 @@ def enc_dict(d):
     return '&'.join('%s:%s' % (hs(k), 'n' if v is None else 's' + hs(v)) for k, v in d.items())
 
 
-def enc_op(op, cfgs=None):
+def enc_op(op, cfgs=None, app=None, st=None):
+    """`st` (one dict per protocol line): (app, event) -> number of listeners the handlers of `app` have
+    subscribed to `app.request` so far in program order.  A listener is a statement of the application that
+    subscribed it: in the model line it is spelled out as the read it makes (`envget <key>`) after every
+    `reqset` / `reqemit` of THAT application - and of no other.  (Arrangements keep all statements of one
+    application on one thread, so program order is the order of the line.)"""
     k = op[0]
+    st = {} if st is None else st
+    if k == 'listen':
+        st[(app, op[1])] = st.get((app, op[1]), 0) + 1
+        return []
+    if k == 'unlisten':
+        st[(app, op[1])] = max(0, st.get((app, op[1]), 0) - 1)
+        return []
+    if k == 'reqset':
+        return ['reqset', hs(op[1]), hs(op[2])] + ['envget', hs(op[1])] * st.get((app, 'env_changed'), 0)
+    if k == 'reqemit':
+        return ['envget', hs(op[2])] * st.get((app, op[1]), 0)
     if k in ('path', 'method', 'body', 'url', 'rdstatus', 'copy', 'kwargs', 'urlargs', 'whoami'):
         return [k]
     if k in ('dump', 'mutate', 'extget'):
@@ -476,7 +492,7 @@ def enc_op(op, cfgs=None):
     if k == 'cheader':
         return [k, str(op[1]), hs(op[2]), hs('HTTP_' + op[2].upper().replace('-', '_'))]
     if k == 'nested':
-        return [k] + enc_req(op[1], cfgs)
+        return [k] + enc_req(op[1], cfgs, st)
     if k == 'construct':
         return [k, str(op[1])]
     raise ValueError(op)
@@ -512,20 +528,21 @@ NO_CFG = dict(debug=False, custom=[], before=[], after=[])
 MEMFILE_MAX = 512         # max_memfile_size of every application the harness configures
 
 
-def enc_req(req, cfgs=None):
+def enc_req(req, cfgs=None, st=None):
+    st = {} if st is None else st
     cfg = dict(NO_CFG, **((cfgs or {}).get(req['app']) or {}))
     toks = ['R', str(req['app']), enc_dict(model_env(req)), '1' if cfg['debug'] else '0',
             ','.join(str(c) for c in cfg['custom']) or '-', 'B']
     for op in cfg['before']:
-        toks += enc_op(op, cfgs)
+        toks += enc_op(op, cfgs, req['app'], st)
     toks.append('A')
     for op in cfg['after']:
-        toks += enc_op(op, cfgs)
+        toks += enc_op(op, cfgs, req['app'], st)
     kind = req['kind']
     if kind == 'handler':
         toks.append('H')
         for op in req['ops']:
-            toks += enc_op(op, cfgs)
+            toks += enc_op(op, cfgs, req['app'], st)
         toks += enc_out(req['out'])
     elif kind == 'notfound':
         toks += ['NF', hs(status_line(404)), hs('Not Found')]
@@ -538,11 +555,12 @@ def enc_req(req, cfgs=None):
     return toks
 
 
-def enc_items(items, cfgs=None):
+def enc_items(items, cfgs=None, st=None):
     toks = []
+    st = {} if st is None else st
     for it in items:
         if it[0] == 'serve':
-            toks += ['serve'] + enc_req(it[1], cfgs)
+            toks += ['serve'] + enc_req(it[1], cfgs, st)
         elif it[0] in ('poke', 'pokeattr'):
             toks += [it[0], str(it[1]), hs(it[2]), hs(it[3])]
         elif it[0] == 'idle':
@@ -559,8 +577,9 @@ def case_line(case, events, variant='fixed', op='run', multi=None):
         multi = is_multi(case)
     toks = ['tsprops', op, variant, '1' if multi else '0']
     toks += ['T', '0'] + enc_items([('construct', a) for a in case.get('apps', [])])
+    st = {}
     for tid in sorted(case['threads']):
-        toks += ['T', str(tid)] + enc_items(case['threads'][tid], case.get('cfg'))
+        toks += ['T', str(tid)] + enc_items(case['threads'][tid], case.get('cfg'), st)
     toks += ['EV', ','.join(['1000'] + [str(t) for t in events])]
     return ' '.join(toks)
 
@@ -590,6 +609,7 @@ class World:
         self.reg = sched.Registry(multi=self.multi)
         self.apps = {}
         self.handed = []
+        self.subs = {}                       # (app id, event) -> unsubscribe closures of the listeners handlers added
         self.tl = threading.local()          # the harness' own per-thread observation list
         self.obs = {}
         self.reqs = list(case_reqs(case))
@@ -684,6 +704,29 @@ class World:
             else:
                 self.construct(it[1])
 
+    def subscribe(self, app_id, rq, event):
+        """`app.request.on(event, cb)`: the callback shows - as a read of the application that SUBSCRIBED it,
+        in the thread it is called on - the value the changed key has in the request it is called for"""
+        world = self
+
+        def cb(request, key, value=None):
+            world.tl.obs.append((app_id, 'r:' + show(request.get(key))))
+        self.subs.setdefault((app_id, event), []).append(rq.on(event, cb))
+
+    def unsubscribe(self, app_id, event):
+        subs = self.subs.get((app_id, event))
+        if subs:
+            subs.pop()()                          # the closure `on` returned
+
+    def drop_subscriptions(self):
+        """end of a run: the default application (and its request object) outlives the case"""
+        for subs in self.subs.values():
+            while subs:
+                try:
+                    subs.pop()()
+                except Exception:       # noqa
+                    pass
+
     def hand(self, what, obj):
         """remember (alive) an object the framework handed to application code, and for which serve"""
         if obj is not None and not isinstance(obj, (str, bytes, int, float, bool)):
@@ -724,7 +767,10 @@ class World:
         workers = [(lambda me, items=case['threads'][t]: self.run_items(me, items)) for t in tids]
         r = sched.Run(workers, case.get('switches', ()), repo=repo, handler_codes=[h_script.__code__, run_ops.__code__, h_error.__code__, h_hook.__code__, upload_field.__code__],
                       registry=self.reg, timeout=timeout, label_only=label_only)
-        r.run()
+        try:
+            r.run()
+        finally:
+            self.drop_subscriptions()
         self.sched = r
         self.module_state = module_snapshot()
         for i, e in enumerate(r.errors):
@@ -801,6 +847,14 @@ def run_ops(world, app_id, ops, copies):
             obs.append((app_id, 'r:' + show(getattr(rq, op[1], None))))
         elif k == 'whoami':
             obs.append((app_id, 'r:' + show(getattr(world.tl, 'rule', None))))
+        elif k == 'reqset':
+            rq[op[1]] = op[2]                     # BaseRequest.__setitem__ on the live request (emits env_changed)
+        elif k == 'listen':
+            world.subscribe(app_id, rq, op[1])
+        elif k == 'unlisten':
+            world.unsubscribe(app_id, op[1])
+        elif k == 'reqemit':
+            rq.emit(op[1], op[2], None)           # a user event on this application's request
         elif k == 'statusline':
             rs.status = op[1]
         elif k == 'scookie':
